@@ -479,12 +479,40 @@ type Pool struct {
 	New   func() interface{}
 	mu    sync.Mutex
 	items []interface{}
+	reg   bool
+}
+
+var (
+	poolsMu sync.Mutex
+	pools   []*Pool
+)
+
+func (p *Pool) register() {
+	if !p.reg {
+		p.reg = true
+		poolsMu.Lock()
+		pools = append(pools, p)
+		poolsMu.Unlock()
+	}
+}
+
+// ResetPools empties every pool seen so far, so that a simulated run does not
+// depend on what earlier runs in the same process left behind.
+func ResetPools() {
+	poolsMu.Lock()
+	defer poolsMu.Unlock()
+	for _, p := range pools {
+		p.mu.Lock()
+		p.items = nil
+		p.mu.Unlock()
+	}
 }
 
 func (p *Pool) Get() interface{} {
 	if cur.Load() == nil {
 		p.mu.Lock()
 		defer p.mu.Unlock()
+		p.register()
 		if n := len(p.items); n > 0 {
 			x := p.items[n-1]
 			p.items = p.items[:n-1]
@@ -496,6 +524,7 @@ func (p *Pool) Get() interface{} {
 		return nil
 	}
 	p.mu.Lock()
+	p.register()
 	n := len(p.items)
 	p.mu.Unlock()
 	k := Choose(n+1, "pool.Get")
@@ -515,6 +544,7 @@ func (p *Pool) Get() interface{} {
 func (p *Pool) Put(x interface{}) {
 	Yield("pool.Put")
 	p.mu.Lock()
+	p.register()
 	p.items = append(p.items, x)
 	if len(p.items) > 64 {
 		p.items = p.items[1:]
